@@ -309,7 +309,7 @@ impl World {
         self.st.borrow_mut().begin_epoch(step);
         let w = waker(self.dflag.clone());
         let r = catch_unwind(AssertUnwindSafe(|| {
-            d.as_mut().poll(&mut Context::from_waker(&w))
+            poll_unconstrained(&mut Context::from_waker(&w), |cx| d.as_mut().poll(cx))
         }));
         match r {
             Err(p) => {
@@ -781,11 +781,8 @@ async fn run_inner(cfg: &Cfg, out: &mut Outcome) {
                 c.polls += 1;
                 let wk = waker(c.flag.clone());
                 let p = catch_unwind(AssertUnwindSafe(|| {
-                    c.fut
-                        .as_mut()
-                        .unwrap()
-                        .as_mut()
-                        .poll(&mut Context::from_waker(&wk))
+                    let f = c.fut.as_mut().unwrap();
+                    poll_unconstrained(&mut Context::from_waker(&wk), |cx| f.as_mut().poll(cx))
                 }));
                 match p {
                     Err(pn) => {
